@@ -11970,8 +11970,15 @@ func (p *parser) markExprAsParenthesized(value js_ast.Expr, openParenLoc logger.
 
 func (p *parser) maybeTransposeIfExprChain(expr js_ast.Expr, visit func(js_ast.Expr) js_ast.Expr) js_ast.Expr {
 	if e, ok := expr.Data.(*js_ast.EIf); ok {
+		// A branch that is never taken is dead control flow, exactly as it is
+		// when the "?:" expression is visited (the callbacks look at this flag)
+		old := p.isControlFlowDead
+		boolean, _, ok := js_ast.ToBooleanWithSideEffects(e.Test.Data)
+		p.isControlFlowDead = old || (ok && !boolean)
 		e.Yes = p.maybeTransposeIfExprChain(e.Yes, visit)
+		p.isControlFlowDead = old || (ok && boolean)
 		e.No = p.maybeTransposeIfExprChain(e.No, visit)
+		p.isControlFlowDead = old
 		return expr
 	}
 	return visit(expr)
